@@ -308,7 +308,10 @@ theorem arcAxis_pos (src : V3 ℝ) (hs : 0 < src.magnitude2)
         nlinarith [mul_self_nonneg src.y, mul_self_nonneg src.z]
       simp [V3.ulpsEqZero, hy, hz', h00]
 
-/-- `from_arc`, opposite branch, no fallback, unconditional form -/
+/-- `from_arc`, opposite branch, no fallback, with the axis condition of `fromArc_opposite_none` discharged; NOT unconditional: it
+still assumes `h00` (`ulps_eq!(0, 0)`), `hz` (a vector that is `ulps_eq` to zero is shorter than `|src|/√2`) and `hpi`
+(`radFull = 2π`).  These are discharged at the real instance, under the side condition `ε² < |src|²`, in `Props/C15c.lean`
+(`fromArc_opposite_none_real`) -/
 theorem fromArc_opposite_none' (hpi : (Lits.radFull : ℝ) = 2 * π) (src dst : V3 ℝ)
     (hbr : Quat.fromArcBranch src dst = .opposite) (hs : 0 < src.magnitude2)
     (h00 : ulpsEqD (0 : ℝ) 0 = true)
@@ -325,7 +328,8 @@ theorem fromArc_opposite_none' (hpi : (Lits.radFull : ℝ) = 2 * π) (src dst : 
   · show V3.dot (Quat.fromArc src dst none).v src = 0
     rw [h0]; exact (arcAxis_spec src hpos).2
 
-/-! ## 4. between_vectors, opposite branch, unconditional -/
+/-! ## 4. between_vectors, opposite branch, without the axis hypothesis (still under `h00 : ulps_eq!(0, 0)` and
+`hz : ulps_eq!(x, 0) → x < 1/2`; both discharged at the real instance in `Props/C15c.lean`, `betweenVectors_opposite_unit_real`) -/
 
 /-- for a unit `a`: `|a × x̂|² + |a × ŷ|² ≥ 1` (it is `1 + a.z²`), so one of the two candidate axes has
 squared length `≥ 1/2` -/
@@ -630,6 +634,8 @@ example (src : V3 ℝ) (hs : 0 < src.magnitude2) :
   obtain ⟨⟨h1, h2⟩, h3⟩ := h
   have : v.magnitude2 = 0 := by simp [h1, h2, h3]
   rw [this]; linarith
+-- zero-tolerance witness only (the exact comparison): it shows that `UlpsLaw` is satisfiable, not that the real `ulps_eq!`
+-- satisfies it; for the real instance (ε = 2^-52, 4 ulps) see `ulpsLaw_real`, `Props/C15c.lean`
 example : UlpsLaw := by
   intro x y h
   rw [(exact_iff x y).1 h]
